@@ -154,7 +154,11 @@ def scenarios(tier):
                "expect": packet_expect("icmp", target(net30, 28, exclude=[{"ip": [10, 9, 3, 4], "len": 30}, {"ip": [10, 9, 3, 9], "len": 32}]), [[]], [11], 500,
                                        rate={"n": 100, "winMs": 1000, "winNs": 0})})
     sc.append({"name": "udp-subnet", "args": ["udp", "--json", "-p", "53,161"] + COMMON + ["--exit-delay", "500ms", "10.9.3.0/31"], "files": {"empty": ""},
-               "inject": [{"bytes": icmp_reply(a(0), 3, 3, 55), "afterProbe": 1, "delayMs": 40}],
+               "inject": [{"bytes": icmp_reply(a(0), 3, 3, 55), "afterProbe": 1, "delayMs": 40},
+                          # any ICMP other than an echo request is a reply to a udp scan: time exceeded, echo reply, parameter problem; not an echo request
+                          {"bytes": icmp_reply(a(1), 11, 0, 250), "afterProbe": 1, "delayMs": 50}, {"bytes": icmp_reply(a(0), 0, 0, 64), "afterProbe": 1, "delayMs": 60},
+                          {"bytes": icmp_reply(a(1), 12, 1, 9), "afterProbe": 1, "delayMs": 70}, {"bytes": icmp_reply(a(1), 8, 0, 64), "afterProbe": 1, "delayMs": 80},
+                          {"bytes": icmp_reply([10, 9, 3, 2], 11, 0, 250), "afterProbe": 1, "delayMs": 90}],
                "expect": packet_expect("udp", target(net30, 31, [rng(53, 53), rng(161, 161)]), [[rng(53, 53), rng(161, 161)]], [4], 500)})
     # 6'. non-default probe options through the commands' flag parsing: the frames are still the reference encodings (C05)
     sc.append({"name": "icmp-options", "args": ["icmp", "--json", "--ttl", "5", "--type", "13", "--code", "0", "--ipflags", "df,mf", "--payload", "abc\\x00\\xff"] + COMMON + ["--exit-delay", "300ms", "10.9.3.0/31"],
@@ -267,6 +271,12 @@ def scenarios(tier):
     sc.append({"name": "docker-proxy-env", "args": ["docker", "--json", "--proto", "http", "-p", "2375", "10.200.0.6"], "servers": {"2375": "json", "3128": "json"}, "env": proxy,
                "expect": hexp(target([10, 200, 0, 6], 32, [rng(2375, 2375)]), 5, 1)})
     sc.append({"name": "elastic-redirect", "args": ["elastic", "--json", "-p", "9200", "10.200.0.4"], "servers": {"9200": "redirect:http://10.200.0.77:9201/", "9201": "json"},
+               "expect": hexp(target([10, 200, 0, 4], 32, [rng(9200, 9200)]), 3, 0)})
+    # a 3xx to another port / scheme of the probed address itself: still not the probed endpoint
+    sc.append({"name": "docker-redirect-same-host", "args": ["docker", "--json", "--proto", "http", "-p", "2375", "10.200.0.6"],
+               "servers": {"2375": "redirect:http://10.200.0.6:2376/info", "2376": "json"},
+               "expect": hexp(target([10, 200, 0, 6], 32, [rng(2375, 2375)]), 5, 0)})
+    sc.append({"name": "elastic-redirect-same-host", "args": ["elastic", "--json", "-p", "9200", "10.200.0.4"], "servers": {"9200": "redirect:http://10.200.0.4:9201/", "9201": "json"},
                "expect": hexp(target([10, 200, 0, 4], 32, [rng(9200, 9200)]), 3, 0)})
     sc.append({"name": "docker-redirect", "args": ["docker", "--json", "--proto", "http", "-p", "2375", "10.200.0.6"], "servers": {"2375": "redirect:http://10.200.0.77:2376/info", "2376": "json"},
                "expect": hexp(target([10, 200, 0, 6], 32, [rng(2375, 2375)]), 5, 0)})
